@@ -52,6 +52,17 @@ func genC20Case(r *rand.Rand, rsync bool) SDCase {
 	restarts := 0
 	wroteSince := false
 	dcLive := false
+	if !rsync && r.Intn(3) == 0 {
+		// directed opening: an idle run (nothing written since the previous run) followed by a deletion and a run
+		e0, e1 := gen.Entity(r, v, v.IDs[0]), gen.Entity(r, v, v.IDs[1])
+		cur["da|"+v.IDs[0]] = e0
+		c.Ops = append(c.Ops, SDOp{Kind: "batch", DS: "da", Ents: []model.Ent{e0}}, SDOp{Kind: "create", DS: "dc"},
+			SDOp{Kind: "batch", DS: "dc", Ents: []model.Ent{e1}}, SDOp{Kind: "backup"}, SDOp{Kind: "backup"},
+			SDOp{Kind: "delete", DS: "dc"}, SDOp{Kind: "backup"})
+		backups = 3
+		tags["idle-run-then-delete"] = true
+		tags["write-between-backups"] = true
+	}
 	for i := 0; i < n; i++ {
 		switch k := r.Intn(100); {
 		case k < 50:
@@ -125,6 +136,15 @@ func genC20Case(r *rand.Rand, rsync bool) SDCase {
 	c.Ops = append(c.Ops, SDOp{Kind: "backup"})
 	if backups+1 >= 2 {
 		tags["multi-backup"] = true
+	}
+	if !rsync && r.Intn(4) == 0 {
+		// the store is wiped (DELETE /datasets): what follows is a different store, whose runs must leave the
+		// backup location of the wiped one alone
+		c.Ops = append(c.Ops, SDOp{Kind: "wipe"}, SDOp{Kind: "batch", DS: "da", Ents: []model.Ent{gen.Entity(r, v, v.IDs[0])}}, SDOp{Kind: "backup-after-wipe"})
+		if r.Intn(2) == 0 {
+			c.Ops = append(c.Ops, SDOp{Kind: "restart"}, SDOp{Kind: "backup-after-wipe"})
+		}
+		tags["store-wiped"] = true
 	}
 	for t := range tags {
 		c.Tags = append(c.Tags, t)
@@ -262,6 +282,47 @@ func runC20Case(ctx *Ctx, c SDCase) {
 			nBackups++
 			ctx.Out.Stat("c20_backup_runs", 2)
 			s.c20RestoreAndCompare(dir, rsync, want, nBackups)
+		case "wipe":
+			if err := s.core.Store.Delete(); err != nil {
+				s.ctx.Out.Inconclusive(id, "C20", "wipe: "+err.Error())
+				s.abort = true
+				break
+			}
+			// the wiped store has no core.Dataset any more (the running hub cannot create datasets until it is
+			// restarted): restart, as an operator would
+			if err := s.core.Close(); err != nil {
+				s.viol("C20", "close-error", err.Error(), nil, nil)
+				s.abort = true
+				break
+			}
+			c20DropCronEntries()
+			s.core = hub.OpenCoreEnv(env.confAlias)
+			s.mg.ctxStore = server.NewContextualStore(s.core.Store)
+			bm, err = server.NewBackupManager(s.core.Store, env.confAlias)
+			if err != nil || bm == nil {
+				ctx.Out.Inconclusive(id, "C20", fmt.Sprintf("backup manager after wipe: %v", err))
+				s.abort = true
+				break
+			}
+			s.m = model.New()
+			s.rec, s.iids, s.seen = map[string][]uint64{}, map[string]uint64{}, map[string]bool{}
+			for _, d := range c.Datasets {
+				s.core.Dsm.CreateDataset(d, nil)
+				s.m.Create(d)
+			}
+		case "backup-after-wipe":
+			loc := filepath.Join(dir, "backup")
+			before := dirHash(loc)
+			func() {
+				defer func() { _ = recover() }() // refusing with a panic is the hub's way of saying no
+				bm.Run()
+			}()
+			if after := dirHash(loc); after != before {
+				s.viol("C20", "location-of-wiped-store-overwritten", "the store was wiped (Store.Delete) and written again: it is a different store, yet its backup run modified the backup location that belongs to the wiped one", before, after)
+				s.abort = true
+				break
+			}
+			ctx.Out.Stat("c20_runs_after_wipe_refused", 1)
 		case "restart":
 			if err := s.core.Close(); err != nil {
 				s.viol("C20", "close-error", err.Error(), nil, nil)
